@@ -55,6 +55,7 @@ type c03Env struct {
 	contract uint64 // id of ub's uploaded user contract
 	licensee chain.Actor
 	client   chain.Actor // a registered (activated) light-node client holding a fee grant from the configured fee granter
+	handed   string      // a factory denom created by the attacker whose admin role was handed to the user victim
 }
 
 // who the victim of a template is
@@ -191,6 +192,24 @@ func c03Templates() []c03Template {
 		}},
 		{name: "skyway.MsgSetERC20ToTokenDenom", group: "skyway_user", victim: vicUser, build: func(e *c03Env, id map[string]sdk.AccAddress, md vtypes.MsgMetadata) sdk.Msg {
 			return &skywaytypes.MsgSetERC20ToTokenDenom{Metadata: md, Denom: e.tok.Denom, ChainReferenceId: c03Chain, Erc20: "0x00000000000000000000000000000000000000E7"}
+		}},
+		// ---------------- the same privileged operations on a denom the attacker created and then handed to the victim:
+		// the denom's name carries the attacker's address, its admin (the principal it is held for) is the victim
+		{name: "tokenfactory.MsgMint", group: "tokenfactory", victim: vicUser, build: func(e *c03Env, id map[string]sdk.AccAddress, md vtypes.MsgMetadata) sdk.Msg {
+			return &tftypes.MsgMint{Metadata: md, Amount: sdk.NewCoin(e.handed, sdkmath.NewInt(777))}
+		}},
+		{name: "tokenfactory.MsgBurn", group: "tokenfactory", victim: vicUser, build: func(e *c03Env, id map[string]sdk.AccAddress, md vtypes.MsgMetadata) sdk.Msg {
+			return &tftypes.MsgBurn{Metadata: md, Amount: sdk.NewCoin(e.handed, sdkmath.NewInt(3))}
+		}},
+		{name: "tokenfactory.MsgChangeAdmin", group: "tokenfactory", victim: vicUser, build: func(e *c03Env, id map[string]sdk.AccAddress, md vtypes.MsgMetadata) sdk.Msg {
+			return &tftypes.MsgChangeAdmin{Metadata: md, Denom: e.handed, NewAdmin: e.attacker.Addr.String()}
+		}},
+		{name: "tokenfactory.MsgSetDenomMetadata", group: "tokenfactory", victim: vicUser, build: func(e *c03Env, id map[string]sdk.AccAddress, md vtypes.MsgMetadata) sdk.Msg {
+			d := e.handed
+			return &tftypes.MsgSetDenomMetadata{Metadata: md, DenomMetadata: banktypes.Metadata{Base: d, Display: d, Name: "forged", Symbol: "F", DenomUnits: []*banktypes.DenomUnit{{Denom: d}}}}
+		}},
+		{name: "skyway.MsgSetERC20ToTokenDenom", group: "skyway_user", victim: vicUser, build: func(e *c03Env, id map[string]sdk.AccAddress, md vtypes.MsgMetadata) sdk.Msg {
+			return &skywaytypes.MsgSetERC20ToTokenDenom{Metadata: md, Denom: e.handed, ChainReferenceId: c03Chain, Erc20: "0x00000000000000000000000000000000000000E8"}
 		}},
 		// ---------------- skyway (validator side)
 		{name: "skyway.MsgSendToPalomaClaim", group: "skyway_claims", victim: vicValidator, principals: []string{"orchestrator"}, build: func(e *c03Env, id map[string]sdk.AccAddress, md vtypes.MsgMetadata) sdk.Msg {
@@ -355,7 +374,7 @@ func c03Setup(t *rapid.T, salt string) *c03Env {
 			&evmtypes.MsgUploadUserSmartContractRequest{Metadata: chain.MD(e.ub), Title: "mine", AbiJson: "[]", Bytecode: "0x6001", ConstructorInput: "0x"},
 		),
 		c.MustSign(e.vb.Actor, grantV),
-		c.MustSign(e.attacker, grantA),
+		c.MustSign(e.attacker, grantA, &tftypes.MsgCreateDenom{Metadata: chain.MD(e.attacker), Subdenom: "handed"}),
 		c.MustSign(c.Users["funder"], &palomatypes.MsgAddLightNodeClientLicense{Metadata: chain.MD(c.Users["funder"]), ClientAddress: e.licensee.Addr.String(), Amount: sdk.NewCoin(chain.BondDenom, sdkmath.NewInt(9_000_000)), VestingMonths: 6},
 			&palomatypes.MsgAddLightNodeClientLicense{Metadata: chain.MD(c.Users["funder"]), ClientAddress: e.client.Addr.String(), Amount: sdk.NewCoin(chain.BondDenom, sdkmath.NewInt(7_000_000)), VestingMonths: 6}),
 	), "victim state 1")
@@ -366,9 +385,14 @@ func c03Setup(t *rapid.T, salt string) *c03Env {
 		c.MustSign(e.ub, &schedtypes.MsgExecuteJob{Metadata: chain.MD(e.ub), JobID: e.jobID}),
 		c.MustSign(e.vb.Actor, &skywaytypes.MsgSendToPalomaClaim{Metadata: chain.MD(e.vb.Actor), EventNonce: 1, SkywayNonce: 1, EthBlockHeight: 4000, TokenContract: c03ERC20, Amount: sdkmath.NewInt(5),
 			EthereumSender: "0x00000000000000000000000000000000000000b1", PalomaReceiver: e.ub.Addr.String(), Orchestrator: e.vb.Addr.String(), ChainReferenceId: c03Chain, CompassId: "compass-1"}),
+		c.MustSign(e.attacker, &tftypes.MsgChangeAdmin{Metadata: chain.MD(e.attacker), Denom: "factory/" + e.attacker.Addr.String() + "/handed", NewAdmin: e.ub.Addr.String()}),
 		c.MustSign(c.Users["granter"], grantC),
 		c.MustSign(e.client, &palomatypes.MsgRegisterLightNodeClient{Metadata: chain.MD(e.client)}),
 	), "victim state 2")
+	e.handed = "factory/" + e.attacker.Addr.String() + "/handed"
+	if md, err := c.App.TokenFactoryKeeper.GetAuthorityMetadata(c.ReadCtx(), e.handed); err != nil || md.Admin != e.ub.Addr.String() {
+		t.Fatalf("setup: denom %s not handed to the victim: %v %v", e.handed, md, err)
+	}
 	if cl, err := c.App.PalomaKeeper.GetLightNodeClient(c.ReadCtx(), e.client.Addr.String()); err != nil || cl == nil {
 		t.Fatalf("setup: light-node client not registered: %v", err)
 	}
@@ -547,6 +571,10 @@ func c03Case(t *rapid.T, tpls []c03Template) {
 			msgs = []sdk.Msg{msg}
 		}
 		pats := project.Idents(B)
+		if tpl.victim == vicUser {
+			// everything recorded under the handed-over denom (supply, metadata, bridge mapping, ...) is held for its admin
+			pats = append(pats, []byte(e.handed))
+		}
 		nk := B.String()
 		if noise[nk] == nil {
 			noise[nk] = noiseFor(pats)
